@@ -836,11 +836,46 @@ func readOnlyCallee(fn *ssa.Function) bool {
 	return false
 }
 
+// soleImplementation: for a call through an interface type declared in the analysed module, the one function the call
+// graph (VTA) lets it reach; nil when there are several, none, or the interface is not the module's own.
+func (ps *PathSim) soleImplementation(fn *ssa.Function, ci ssa.CallInstruction) *ssa.Function {
+	if ps.prog == nil || ps.prog.CG == nil {
+		return nil
+	}
+	nt, ok := ci.Common().Value.Type().(*types.Named)
+	if !ok || nt.Obj().Pkg() == nil || !(nt.Obj().Pkg().Path() == modPath || nt.Obj().Pkg().Path() == grammarPath) {
+		return nil
+	}
+	n := ps.prog.CG.Nodes[fn]
+	if n == nil {
+		return nil
+	}
+	var only *ssa.Function
+	for _, e := range n.Out {
+		if e.Site != ci {
+			continue
+		}
+		c := e.Callee.Func
+		if only != nil && only != c {
+			return nil
+		}
+		only = c
+	}
+	if only == nil || !ps.prog.InModule(only) {
+		return nil
+	}
+	return only
+}
+
 func (ps *PathSim) execCall(fn *ssa.Function, st *pstate, ci ssa.CallInstruction, val *ssa.Call) {
 	com := ci.Common()
 	ev := Event{Instr: ci, In: fn, Callee: com.StaticCallee()}
 	if com.IsInvoke() {
 		ev.Args = append(ev.Args, ps.sym(st, com.Value))
+		if f := ps.soleImplementation(fn, ci); f != nil {
+			ev.Callee = f // a method of an interface of the module that one type implements: the call can only go there
+			ev.Resolved = true
+		}
 	} else if ev.Callee == nil {
 		ev.FnSym = ps.sym(st, com.Value)
 		if f, _ := ps.funcOfSym(ev.FnSym); f != nil {
@@ -891,6 +926,14 @@ func (ps *PathSim) execCall(fn *ssa.Function, st *pstate, ci ssa.CallInstruction
 				// MapKeys returns one key per entry: its length is the map's Len()
 				if ma := symArgs(st, ev.Args[0]); len(ma) == 1 {
 					s = &Sym{K: sRLen, A: ma[0], T: val.Type(), V: val}
+				}
+			}
+			if a0 := ev.Args[0]; a0.K == sFresh && len(a0.Kids) == 1 {
+				if _, isMk := a0.V.(*ssa.MakeSlice); isMk {
+					s = a0.Kids[0] // len(make([]T, n, …)) is n: nothing is ever appended to the made value itself
+					if s.K == sConst && s.T == nil {
+						s = &Sym{K: sConst, C: s.C, T: val.Type()}
+					}
 				}
 			}
 			if n, ok := staticLen(com.Args[0].Type(), ev.Args[0]); ok {
